@@ -135,6 +135,80 @@ def run(loader, R, tier):
                                            show(fl[0])[:30], show(n)[:60]))
     R.floor("exact-number constructions in the parser", nint, 1)
 
+    # ---------------------------------------------------------- R17.6
+    # an IMPLICIT_MUL token ("2x", "3pi") is split by parse_implicit_mul
+    # into (number, identifier-or-one); `one` is the sentinel for "no
+    # identifier part".  A grammar action that builds its value from the
+    # tuple must use both components unless the path it is on establishes
+    # that the dropped component IS the sentinel (the neutral element):
+    # any other test lets a consumed identifier vanish from the value.
+    R.rule("R17.6", "grammar actions use both halves of a split "
+                    "IMPLICIT_MUL token unless the dropped half is `one`")
+    from selib import sym as _sym
+    n6 = 0
+    for f in prog.fn_by_qn("yy::parser::parse"):
+        if not f.get("body"):
+            continue
+        tups = {v["n"] for d in walk(f["body"]) if d.get("k") == "decl"
+                for v in d.get("v", ())
+                if any(c.get("n") == "parse_implicit_mul"
+                       for c in walk(v.get("i") or {})
+                       if c.get("k") in ("call", "mcall"))}
+
+        def comps(e):
+            out = set()
+            for c in walk(e):
+                if c.get("k") == "call" and c.get("n") == "get" \
+                        and c.get("a") and c["a"][-1].get("k") == "ref" \
+                        and c["a"][-1].get("n") in tups:
+                    s = show(c)
+                    out.add(0 if s.startswith("get<0") else
+                            1 if s.startswith("get<1") else s)
+            return out
+
+        def cb6(n, guards, line, f=f):
+            nonlocal n6
+            if not (n.get("k") == "op" and n.get("op") == "="
+                    and len(n.get("a", ())) == 2
+                    and show(n["a"][0]).startswith("yylhs")):
+                return
+            used = comps(n["a"][1])
+            if not used:
+                return
+            n6 += 1
+            key = "implicit_mul#%d" % n6
+            neutral = set()
+            for g in guards:
+                if len(g) != 2 or not isinstance(g[0], dict):
+                    continue
+                c, pol = g
+                if c.get("k") == "call" and c.get("n") in ("neq", "eq") \
+                        and len(c.get("a", ())) == 2 \
+                        and (c["n"] == "eq") == bool(pol):
+                    sides = [show(a) for a in c["a"]]
+                    if any(s.lstrip("*(").startswith("one") or
+                           s.endswith("one") for s in sides):
+                        neutral |= comps(c)
+            R.instance("R17.6", key, sample={
+                "line": line, "uses": sorted(map(str, used)),
+                "known_one": sorted(map(str, neutral))})
+            for i in (0, 1):
+                if i not in used and i not in neutral:
+                    R.violation(
+                        "R17.6", "IMPLICIT_MUL:drops:%s" % (
+                            "identifier" if i else "number"),
+                        prog.loc(f, line),
+                        "a grammar action builds its value `%s` from a split "
+                        "IMPLICIT_MUL token without its %s part, on a path "
+                        "that does not establish that part to be `one` (the "
+                        "sentinel parse_implicit_mul returns for an absent "
+                        "identifier): a consumed identifier such as the "
+                        "constant in \"2pi^2\" vanishes from the result" % (
+                            show(n["a"][1])[:70],
+                            "identifier" if i else "numeric"))
+        _sym.visit_guarded(f["body"], cb6)
+    R.floor("grammar actions over a split IMPLICIT_MUL token", n6, 3)
+
     # ---------------------------------------------------------- R17.2
     fnames = set()
     for u, f in prog.functions.items():
